@@ -206,6 +206,11 @@ func init() {
 			fail("rows.go/excelize.go: Rows.Next, Rows.Columns, checkSheet, checkRow")
 		}
 		fmt.Fprintf(w, "def rowsBoundByTotalRows : Bool := %s\n", c04bool(mentions("Rows", "Next", "rowNum > TotalRows") && mentions("Rows", "Columns", "rowNum > TotalRows")))
+		if funcDecl("File", "GetMergeCells") == nil {
+			fail("merge.go: (*File).GetMergeCells")
+		}
+		fmt.Fprintf(w, "def getMergeCellsInPlace : Bool := %s\n", c04bool(mentions("File", "GetMergeCells", "f.mergeOverlapCells(ws)")))
+		fmt.Fprintf(w, "def getRowsReturnsMaxRows : Bool := %s\n", c04bool(mentions("File", "GetRows", "err == ErrMaxRows") && mentions("File", "GetRows", "rows.Error()")))
 		fmt.Fprintf(w, "def checkSheetBoundsRows : Bool := %s\n", c04bool(mentions("xlsxWorksheet", "checkSheet", "r.R > TotalRows")))
 		fmt.Fprintf(w, "def checkRowSizesByGreatest : Bool := %s\n", c04bool(mentions("xlsxWorksheet", "checkRow", "colNum > lastCol")))
 		fmt.Fprintf(w, "def searchMustCompile : Bool := %s\n", c04bool(mc))
@@ -215,7 +220,7 @@ func init() {
 
 // c04SharedWrites lists, for every exported read function of *File, the assignments in its
 // body whose target is a field / element reached from something that is not a fresh local
-// object (named result, `var x T`, `x := T{...}`, `&T{...}`, make, new): "Getter:lhs".
+// object (named result, `var x T`, `x := T{...}`, `&T{...}`, `x := *p`, make, new): "Getter:lhs".
 func c04SharedWrites() []string {
 	var out []string
 	for _, f := range files {
@@ -246,6 +251,8 @@ func c04SharedWrites() []string {
 			isFresh := func(e ast.Expr) bool {
 				switch x := e.(type) {
 				case *ast.CompositeLit:
+					return true
+				case *ast.StarExpr: // `x := *p` copies the pointee into a local value
 					return true
 				case *ast.UnaryExpr:
 					_, ok := x.X.(*ast.CompositeLit)
